@@ -29,12 +29,22 @@ Is(k)   == More /\ Ev.e = k
 
 SenderOf(name) == CHOOSE s \in Senders : s = name
 
+\* TLC register 2 holds the number of the trace being matched: states of traces
+\* that have already been matched are not expanded again when the depth-first
+\* search backtracks (one explanation per trace is enough).
 TraceInit ==
+  /\ TLCSet(2, 1)
   /\ tid = 1 /\ i = 1
   /\ InitFor(TraceScns[1])
   /\ seen = [m \in AllMsgs |-> 0]
 
 Unfinished == {p \in PeerProcs : ~Finished(p)}
+\* where a goroutine that never ends is blocked, as far as a goroutine dump shows it
+LocClass(l) == CASE l \in {"sc", "sc1", "sc2", "sc3"}   -> "sc"     \* send on stallControl
+                 [] l = "rjwait"                       -> "wait"   \* PushRejectMsg: <-doneChan
+                 [] l \in {"rjput", "pongput", "put"}   -> "put"    \* outputQueue <- ...
+                 [] OTHER                              -> "other"
+UnfinishedAt == {p \o ":" \o LocClass(pc[p]) : p \in Unfinished}
 
 Matched ==
   \/ Is("feed")   /\ RmFeed /\ fed' = Ev.a /\ Adv
@@ -62,7 +72,7 @@ Matched ==
   \/ Is("wfd")   /\ quit /\ i' = i + 1 /\ UNCHANGED <<tid, seen, vars>>
   \* final census: which goroutines of the peer are left, every signal that
   \* was sent has been received, and what the public getters report
-  \/ Is("end")   /\ Unfinished = Ev.l
+  \/ Is("end")   /\ UnfinishedAt = Ev.l
                  /\ (\A m \in AllMsgs : seen[m] = doneCnt[m])
                  /\ Ev.a = nego
                  /\ Ev.b = (IF versionKnown THEN "K" ELSE "k") \o (IF verAck THEN "A" ELSE "a")
@@ -90,12 +100,13 @@ NextTrace ==
   /\ PrintT(<<"ACC", tid, Verdict>>)
   /\ IF tid = NTraces
        THEN TLCSet("exit", TRUE) /\ UNCHANGED <<tvars, vars>>
-       ELSE /\ tid' = tid + 1
+       ELSE /\ TLCSet(2, tid + 1)
+            /\ tid' = tid + 1
             /\ i' = 1
             /\ ResetTo(TraceScns[tid + 1])
             /\ seen' = [m \in AllMsgsOf(TraceScns[tid + 1]) |-> 0]
 
-TraceNext == Hidden \/ Matched \/ NextTrace
+TraceNext == tid >= TLCGet(2) /\ (Hidden \/ Matched \/ NextTrace)
 
 TraceSpec == TraceInit /\ [][TraceNext]_<<vars, tvars>>
 
